@@ -102,7 +102,7 @@ Proof.
   intros d' t' H HI Hh [Hr [Hp1 Hp2]] _ _. simpl in Hp1, Hp2. subst h tmp.
   unfold tstep in H. simpl in H.
   do 3 (match type of H with (if ?b then _ else _) = _ => destruct b end; [same H|]).
-  match type of H with (if ?b then _ else _) = _ => destruct b end; [dm H; same H|].
+  match type of H with (if ?b then _ else _) = _ => destruct b end; [repeat dm H; same H|].
   match type of H with (if ?b then _ else _) = _ => destruct b end; [|same H].
   eapply (step_ord_reserve d _ PutStart sz PutCreate (fun r => Done (PutErr (errc_of r)))); eauto.
 Qed.
